@@ -32,7 +32,7 @@ const outageTicks = 230
 
 func outageCase(i int, seed int64) *caseCfg {
 	cc := &caseCfg{Kind: "outage", Index: i, Seed: seed*1000003 + 800000 + int64(i)}
-	mixes := [][]string{{"reset", "badsig"}, {"badsig", "refused", "reset"}, {"short", "reset", "refused", "badsig"}, {"badsig"}}
+	mixes := [][]string{{"wrongkey", "reset"}, {"badsig", "refused", "wrongkey"}, {"reset", "badsig"}, {"wrongkey"}, {"short", "reset", "refused", "badsig"}, {"badsig"}}
 	for _, o := range mixes[i%len(mixes)] {
 		cc.Servers = append(cc.Servers, srvCfg{Outcome: o})
 	}
@@ -66,6 +66,7 @@ func runOutage(cc *caseCfg, b run.Batch, r *ev.Result) (abort bool) {
 		}
 		return n
 	}
+	const fresh0 = false // stale stamp: a background round may rewrite the file at any moment: no file read
 	x.T0 = client.VerifTicks()
 	x.trace("start client with a stale stamp; every server fails for %d ticks", outageTicks)
 	c, err := drv.StartClient(x.cdir)
@@ -77,7 +78,7 @@ func runOutage(cc *caseCfg, b run.Batch, r *ev.Result) (abort bool) {
 	x.clientStarted()
 	r.Count("cases", 1)
 	r.Count("cases_outage", 1)
-	x.checkState("start", true, true)
+	x.checkState("start", true, fresh0)
 
 	// ---- sampler: largest distance (in report-loop ticks) between two observed dials
 	var maxGap, lastDialTick, dials atomic.Int64
